@@ -69,7 +69,7 @@ fn from_space_sv<'de, D>(deserializer: D) -> Result<Vec<String>, D::Error>
     where
         D: Deserializer<'de>
 {
-    let string: &str = Deserialize::deserialize(deserializer)?;
+    let string: String = Deserialize::deserialize(deserializer)?;
     if string.trim().is_empty() {
         Ok(Vec::default())
     } else {
